@@ -239,6 +239,13 @@ def main(run):
                 run.violation("river-output-form", f"river {kind}: got {got!r}, canonical {exps!r}", replay)
                 break
             run.nontriv(("river", kind, batch, len(seen_labels)))
+            if call % 3 == 1 and isinstance(got, list):
+                # the caller post-processes the dicts it was handed (drops zero entries, adds a key): its own copies, not the wrapper's memory
+                for gd in got:
+                    if isinstance(gd, dict):
+                        for k_ in [k_ for k_, v_ in gd.items() if not v_]:
+                            del gd[k_]
+                        gd["note-added-by-caller"] = 1.0
         if len(run.samples) < 3 and kind == "str":
             run.sample({"wrapper": "river", "output_kind": kind, "labels_seen_in_order": seen_labels, "last_result": got})
     # ---------------- ONE long-lived wrapper object: output width that changes between calls (a classifier refitted after a new
